@@ -261,6 +261,8 @@ def parse_rvalue(s):
     if s.startswith('&raw '):
         t = s[5:]
         t = t[t.index(' ') + 1:]
+        if t.startswith('(fake) '):          # `&raw const (fake) (*_x)`: bounds-check helper, same place
+            t = t[len('(fake) '):]
         return ('rawptr', parse_place(t))
     if s.startswith('&mut '):
         return ('ref', True, parse_place(s[5:]))
